@@ -1,9 +1,12 @@
 package sim
 
 import (
+	"bufio"
 	"errors"
 	"io"
+	"net"
 	"net/http"
+	"time"
 )
 
 // ErrSim is the error injected by simulated I/O faults.
@@ -33,6 +36,11 @@ type SimWriter struct {
 	ShortN    int
 	Fired     int // number of Write calls that returned an injected error
 	Quiet     bool
+
+	Hijacked   bool   // the connection was taken over (SimHijackWriter): Write answers http.ErrHijacked
+	ConnBytes  []byte // what the new owner wrote to the simulated connection
+	ConnClosed int
+	LateWrites int // Write calls after the take-over
 }
 
 func NewSimWriter(t *Task) *SimWriter { return &SimWriter{T: t, H: http.Header{}} }
@@ -62,6 +70,11 @@ func (w *SimWriter) WriteHeader(status int) {
 
 func (w *SimWriter) Write(p []byte) (int, error) {
 	w.here(SiteWWrite)
+	if w.Hijacked {
+		// net/http's contract after Hijack
+		w.LateWrites++
+		return 0, http.ErrHijacked
+	}
 	k := len(w.Chunks)
 	w.Chunks = append(w.Chunks, len(p))
 	n := len(p)
@@ -103,6 +116,43 @@ func (w SimFlushWriter) Flush() {
 	w.here(SiteWFlush)
 	w.Flushes++
 }
+
+// SimHijackWriter additionally implements http.Hijacker; the connection it hands out is simulated
+// as well (writes are schedule points of the running task and are recorded, reads see EOF).
+type SimHijackWriter struct{ *SimWriter }
+
+func (w SimHijackWriter) Hijack() (net.Conn, *bufio.ReadWriter, error) {
+	w.here(SiteWHijack)
+	if w.Hijacked {
+		return nil, nil, http.ErrHijacked
+	}
+	w.Hijacked = true
+	c := &simConn{w: w.SimWriter}
+	return c, bufio.NewReadWriter(bufio.NewReader(c), bufio.NewWriter(c)), nil
+}
+
+type simConn struct{ w *SimWriter }
+
+type simAddr struct{}
+
+func (simAddr) Network() string { return "sim" }
+func (simAddr) String() string  { return "sim" }
+
+func (c *simConn) Read(p []byte) (int, error) { return 0, io.EOF }
+func (c *simConn) Write(p []byte) (int, error) {
+	c.w.here(SiteConnWrite)
+	if c.w.ConnClosed > 0 {
+		return 0, net.ErrClosed
+	}
+	c.w.ConnBytes = append(c.w.ConnBytes, p...)
+	return len(p), nil
+}
+func (c *simConn) Close() error                       { c.w.ConnClosed++; return nil }
+func (c *simConn) LocalAddr() net.Addr                { return simAddr{} }
+func (c *simConn) RemoteAddr() net.Addr               { return simAddr{} }
+func (c *simConn) SetDeadline(t time.Time) error      { return nil }
+func (c *simConn) SetReadDeadline(t time.Time) error  { return nil }
+func (c *simConn) SetWriteDeadline(t time.Time) error { return nil }
 
 // Body fault modes.
 const (
